@@ -218,13 +218,13 @@ func (p *provider) Close() error {
 		}
 	}
 
-	// Close root scope
+	// Close root scope. The field is left in place: Get, GetKeyed and GetGroup
+	// read it without synchronization, and a call that passed the disposed
+	// check just before Close must find a (closed) scope, not nil.
 	if p.rootScope != nil {
 		if err := p.rootScope.Close(); err != nil {
 			errors = append(errors, fmt.Errorf("root scope: %w", err))
 		}
-
-		p.rootScope = nil
 	}
 
 	// Dispose all singleton disposables
